@@ -14,6 +14,7 @@ def argmax(
     a: PolyLike,
     axis: Optional[int] = None,
     out: Optional[numpy.ndarray] = None,
+    **kwargs: Any,
 ) -> Any:
     """
     Return the indices of the maximum values along an axis.
@@ -32,6 +33,8 @@ def argmax(
         out:
             If provided, the result will be inserted into this array. It should
             be of the appropriate shape and dtype.
+        kwargs:
+            Passed on to `numpy.argmax` (``keepdims``).
 
     Return:
         Array of indices into the array. It has the same shape as `a.shape`
@@ -63,4 +66,4 @@ def argmax(
         graded=options["sort_graded"],
         reverse=options["sort_reverse"],
     )[::-1].reshape(a.shape)
-    return numpy.argmax(proxy, axis=axis, out=out)
+    return numpy.argmax(proxy, axis=axis, out=out, **kwargs)
